@@ -156,6 +156,10 @@ struct SWire {
     /// genuine earlier ciphertexts (pulled first, with no AD)
     prior: Vec<Vec<u8>>,
     ct: Vec<u8>,
+    /// the authentic ciphertext / AD for this position (re-presented after a rejected delivery)
+    genuine: Vec<u8>,
+    genuine_ad: Option<Vec<u8>>,
+    genuine_key_header: bool,
 }
 
 struct SOut {
@@ -166,6 +170,8 @@ struct SOut {
     caller_buffer: bool,
     got: Vec<u8>,
     got_tag: u8,
+    /// after a rejected delivery: was the authentic ciphertext still accepted by the same stream?
+    retry_ok: Option<bool>,
 }
 
 const TAG_SENTINEL: u8 = 0xA5;
@@ -188,7 +194,13 @@ fn st_classic(w: &SWire, s: &[u8]) -> Option<SOut> {
     let mut tag = TAG_SENTINEL;
     let r = ss::crypto_secretstream_xchacha20poly1305_pull(&mut st, &mut m, &mut tag, &w.ct, w.ad.as_deref());
     let ok = r.is_ok();
-    Some(SOut { ok, got: m.clone(), got_tag: tag, msg_after: m, msg_before: pre, tag_after: tag, caller_buffer: true })
+    let mut retry_ok = None;
+    if !ok && w.genuine_key_header {
+        let mut m2 = vec![0u8; w.genuine.len() - 17];
+        let mut t2 = 0u8;
+        retry_ok = Some(ss::crypto_secretstream_xchacha20poly1305_pull(&mut st, &mut m2, &mut t2, &w.genuine, w.genuine_ad.as_deref()).is_ok());
+    }
+    Some(SOut { ok, got: m.clone(), got_tag: tag, msg_after: m, msg_before: pre, tag_after: tag, caller_buffer: true, retry_ok })
 }
 
 fn st_object(w: &SWire, _s: &[u8]) -> Option<SOut> {
@@ -202,8 +214,11 @@ fn st_object(w: &SWire, _s: &[u8]) -> Option<SOut> {
     let adv = w.ad.clone();
     let r = st.pull_to_vec(&w.ct, adv.as_ref());
     match r {
-        Ok((m, t)) => Some(SOut { ok: true, got: m, got_tag: t.bits(), msg_after: vec![], msg_before: vec![], tag_after: 0, caller_buffer: false }),
-        Err(_) => Some(SOut { ok: false, got: vec![], got_tag: 0, msg_after: vec![], msg_before: vec![], tag_after: 0, caller_buffer: false }),
+        Ok((m, t)) => Some(SOut { ok: true, got: m, got_tag: t.bits(), msg_after: vec![], msg_before: vec![], tag_after: 0, caller_buffer: false, retry_ok: None }),
+        Err(_) => {
+            let retry_ok = if w.genuine_key_header { Some(st.pull_to_vec(&w.genuine, w.genuine_ad.as_ref()).is_ok()) } else { None };
+            Some(SOut { ok: false, got: vec![], got_tag: 0, msg_after: vec![], msg_before: vec![], tag_after: 0, caller_buffer: false, retry_ok })
+        }
     }
 }
 
@@ -237,6 +252,12 @@ fn stream_tampered(cx: &mut Ctx, prop: Prop, sentinel: &[u8], w: &SWire, compone
             Prop::C02 => {
                 if r.ok {
                     cx.violation(&format!("C02|{}|accepts_tampered|{}_{}", name, component, kind), case());
+                }
+                if r.retry_ok == Some(false) {
+                    cx.violation(&format!("C02|{}|rejects_untampered_after_a_rejected_delivery", name), case());
+                }
+                if r.retry_ok.is_some() {
+                    cx.cover("genuine_retried_after_rejection", name);
                 }
             }
             Prop::C17 => {
@@ -283,11 +304,13 @@ fn enumerate_stream(cx: &mut Ctx, prop: Prop, sentinel: &[u8], w0: &SWire, msg: 
     }
     for bit in 0..192 {
         let mut w = w0.clone();
+        w.genuine_key_header = false;
         flip(&mut w.header, bit);
         stream_tampered(cx, prop, sentinel, &w, "header", "bit_flip", &format!("bit {}", bit), len);
     }
     for bit in 0..256 {
         let mut w = w0.clone();
+        w.genuine_key_header = false;
         flip(&mut w.key, bit);
         stream_tampered(cx, prop, sentinel, &w, "key", "bit_flip", &format!("bit {}", bit), len);
     }
@@ -405,7 +428,7 @@ fn run(cx: &mut Ctx, prop: Prop) {
                     prior.push(na::stream_push(&mut st, b"second, rekeys", None, 2));
                 }
                 let ct = na::stream_push(&mut st, &msg, ad.as_deref(), tag);
-                let w0 = SWire { key, header, ad, prior, ct };
+                let w0 = SWire { key, header, ad: ad.clone(), prior, ct: ct.clone(), genuine: ct, genuine_ad: ad, genuine_key_header: true };
                 cx.key(&format!("stream len={} ad={:?} pos={}", len, adlen, pos));
                 cx.cover("stream_adlen", &format!("{:?}", adlen));
                 cx.cover("stream_position", &format!("{}", pos));
